@@ -49,6 +49,14 @@ func runValidate(t tms20.TileMatrixSet, ids []int) (class string, msg string, st
 	if err := pointindex.IsQuadTree(t); err != nil {
 		return "reject", err.Error(), ""
 	}
+	if len(ids) == 0 {
+		return "reject", "no tile matrices given", ""
+	}
+	for _, id := range ids {
+		if _, exists := t.TileMatrices[id]; !exists {
+			return "reject", fmt.Sprintf("tile matrix %d does not exist in tile matrix set %s", id, t.ID), ""
+		}
+	}
 	deepest := slices.Max(ids)
 	st, _, _, err := pointindex.DeviationStats(t, deepest)
 	if err != nil {
@@ -291,9 +299,9 @@ type c14Base struct {
 func runC14(c *hc.Ctx) error {
 	vs := newViolations(c)
 	var buf bufferedCases
-	c.Sum.Rule = "tile matrix sets = the built-in documents and synthetic exact quadtrees (tile width 1/256/512, both corners, first id 0 or 2); unperturbed (all id lists incl. the real binary for the built-in sets) and with every single-field perturbation (matrix width/height, tile width/height, origin by 1 ulp / 1e-9 / 1 unit, corner, cell size at ratios {1, 1.98, 1.99 -/+ 1ulp, 1.9900001, 2 -/+ 1e-9, 2.0099999, 2.01 -/+ 1 ulp, 2.02, 3} to BOTH neighbours, zero and negative, deletion, variable widths incl. the empty non-nil slice, id strings) at the first, second, a random, the last-but-one and the last level (thorough: every level), plus random pairs of perturbations; distinct = distinct (set, perturbations, ids); non-trivial = perturbed or accepted"
+	c.Sum.Rule = "tile matrix sets = the built-in documents and synthetic exact quadtrees (tile width 1/256/512, both corners, first id 0 or 2); unperturbed (all id lists incl. the real binary for the built-in sets) and with every single-field perturbation (matrix width/height, tile width/height, origin by 1 ulp / 1e-9 / 1 unit, corner, cell size at ratios {1, 1.98, 1.99 -/+ 1ulp, 1.9900001, 2 -/+ 1e-9, 2.0099999, 2.01 -/+ 1 ulp, 2.02, 3} to BOTH neighbours, zero and negative, deletion, variable widths incl. the empty non-nil slice, id strings) at the first, second, a random and the last level (thorough: every level), plus random pairs of perturbations; distinct = distinct (set, perturbations, ids); non-trivial = perturbed or accepted"
 	c.Sum.Oracle = "on the implementation (pointindex.IsQuadTree, DeviationStats, the texel binary; panics recovered): accepted => the quadtree conditions recomputed from the struct with exact rationals hold (ratio cases within 1e-12 of 1.99/2.01 make no claim); a perturbation breaking exactly one condition of an accepted set => rejected with an error; never a panic; for accepted unperturbed sets with a 1x1 root the pixel size reported by DeviationStats (int64 reso) equals cellSize(z)/16 within 1e-7 relative (built-in documents halve only to ~3e-8) resp. exactly to 1e-10 units (synthetic); the binary's verdict equals the library composite"
-	c.Sum.Partial = "validate_total carries the hypotheses under which the code as it stands does not panic; outside them C14_refuted_validate_total (known finding F12: requested ids not checked)"
+	c.Sum.Partial = "validate_total carries the level bound d + log2(tile width) + 4 < 64 (every built-in set satisfies it; a 60-level set does not: C14_validate_total_level_bound_needed)"
 	c.Sum.TrustedBase = []string{
 		"float64 division and comparison in IsQuadTree modelled bit-exactly through f64 (round to nearest even of the exact quotient of the two binary64 values)",
 		"uint(math.Log2(float64(tileWidth))) modelled as floor(log2) (exact for tile widths below 2^47); uint(-Inf) = 2^63 and 1<<n = 0 for n >= 64 as compiled for amd64",
@@ -365,12 +373,16 @@ func runC14(c *hc.Ctx) error {
 		}
 		// ---- oracle
 		if qc == "panic" || vc == "panic" {
-			kf, what := "", "validation panics"
-			if qc != "panic" && (len(ids) == 0 || strings.Contains(vm, "divide by zero")) {
-				kf = "F12"
-				what = "validateTileMatrixSet does not check the requested tile matrix ids: an empty list panics in slices.Max, a deepest id with level >= 64 (or a negative one) panics with an integer division by zero in FromTileMatrixSet (F12)"
+			vs.add(hc.Violation{What: "validation panics", Input: in, Observed: "IsQuadTree: " + qc + " " + qm + "; validate: " + vc + " " + vm, Expected: "an error or acceptance"})
+		}
+		missing := len(ids) == 0
+		for _, id := range ids {
+			if _, ok := t.TileMatrices[id]; !ok {
+				missing = true
 			}
-			vs.add(hc.Violation{What: what, KnownFinding: kf, Input: in, Observed: "IsQuadTree: " + qc + " " + qm + "; validate: " + vc + " " + vm, Expected: "an error or acceptance"})
+		}
+		if missing && vc != "reject" {
+			vs.add(hc.Violation{What: "an empty request / a request for a tile matrix that is not in the set is not rejected with an error (regression F12)", Input: in, Observed: vc + " " + vm, Expected: "an error"})
 		}
 		spec := quadSpec(&t)
 		if qc == "accept" && !spec.ok && !spec.uncertain {
@@ -385,7 +397,7 @@ func runC14(c *hc.Ctx) error {
 		}
 		if vc == "accept" && len(ps) == 0 && stats != "" {
 			// pixel size used for the deepest requested matrix = its cell size / 16
-			deepest := slices.Max(ids)
+				deepest := slices.Max(ids)
 			root, hasRoot := t.TileMatrices[0]
 			m, has := t.TileMatrices[deepest]
 			if mm := resoRe.FindStringSubmatch(stats); mm != nil && has && hasRoot && root.MatrixWidth == 1 {
@@ -409,17 +421,11 @@ func runC14(c *hc.Ctx) error {
 			bc, bm := binaryValidate(b.name, ids)
 			c.Count("binary: " + bc)
 			if bc != vc {
-				kf := ""
-				vs.add(hc.Violation{What: "the texel binary's validation verdict differs from IsQuadTree-then-DeviationStats (order of checks in validateTileMatrixSet?)", KnownFinding: kf, Input: in, Observed: "binary: " + bc + " " + bm, Expected: "library composite: " + vc + " " + vm})
+				vs.add(hc.Violation{What: "the texel binary's validation verdict differs from the sequence IsQuadTree, ids non-empty and in the set, DeviationStats (order of checks in validateTileMatrixSet?)", Input: in, Observed: "binary: " + bc + " " + bm, Expected: "library composite: " + vc + " " + vm})
 			}
 			bv = bc
 			if bc == "panic" {
-				kf, what := "", "texel panics while validating the tile matrix set"
-				if len(ids) == 0 || strings.Contains(bm, "divide by zero") {
-					kf = "F12"
-					what = "validateTileMatrixSet does not check the requested tile matrix ids: an empty list panics in slices.Max, a deepest id with level >= 64 (or a negative one) panics with an integer division by zero in FromTileMatrixSet (F12)"
-				}
-				vs.add(hc.Violation{What: what, KnownFinding: kf, Input: in, Observed: bm, Expected: "an error"})
+				vs.add(hc.Violation{What: "texel panics while validating the tile matrix set", Input: in, Observed: bm, Expected: "an error"})
 			}
 		}
 		cls := map[string]string{"accept": "VAccept", "reject": "VReject", "panic": "VPanicked"}
@@ -452,7 +458,7 @@ func runC14(c *hc.Ctx) error {
 			}
 		}
 	}
-	// 2. ids that are not tile matrices of the set (F12 probes), library and binary
+	// 2. regression F12 (repaired): an empty request and ids that are not tile matrices of the set must give an error, library and binary
 	for _, b := range bases {
 		if b.name != "WebMercatorQuad" && b.name != "NetherlandsRDNewQuad" {
 			continue
@@ -476,7 +482,7 @@ func runC14(c *hc.Ctx) error {
 		ids := sortedIDs(&b.set)
 		levels := map[int]bool{}
 		if c.Quick() {
-			for _, i := range []int{0, 1, len(ids) - 2, len(ids) - 1, 1 + c.Rng.Intn(len(ids)-1)} {
+			for _, i := range []int{0, 1, len(ids) - 1, 1 + c.Rng.Intn(len(ids)-1)} {
 				if i >= 0 && i < len(ids) {
 					levels[ids[i]] = true
 				}
@@ -513,20 +519,23 @@ func runC14(c *hc.Ctx) error {
 			}
 			// cell size: ratios against the previous and against the next matrix
 			ratios := []float64{1, 1.98, next(1.99, false), 1.99, next(1.99, true), 1.9900001, 2 - 1e-9, 2, 2 + 1e-9, 2.0099999, next(2.01, false), 2.01, next(2.01, true), 2.02, 3, 0.5}
+			addCell := func(v float64, r float64) {
+				if v == m.CellSize {
+					return
+				}
+				ps = append(ps, pCellSize(id, v))
+				if !c.Quick() || r == 1.99 || r == 2.01 {
+					ps = append(ps, pCellSize(id, next(v, true)), pCellSize(id, next(v, false)))
+				}
+			}
 			if p, ok := b.set.TileMatrices[id-1]; ok {
 				for _, r := range ratios {
-					v := p.CellSize / r
-					if v != m.CellSize {
-						ps = append(ps, pCellSize(id, v), pCellSize(id, next(v, true)), pCellSize(id, next(v, false)))
-					}
+					addCell(p.CellSize/r, r)
 				}
 			}
 			if n, ok := b.set.TileMatrices[id+1]; ok {
 				for _, r := range ratios {
-					v := n.CellSize * r
-					if v != m.CellSize {
-						ps = append(ps, pCellSize(id, v), pCellSize(id, next(v, true)), pCellSize(id, next(v, false)))
-					}
+					addCell(n.CellSize*r, r)
 				}
 			}
 			ps = append(ps, pCellSize(id, 0), pCellSize(id, -m.CellSize), pCellSize(id, 1e300), pCellSize(id, 5e-324))
